@@ -98,6 +98,18 @@ Fixpoint hex_fold (acc : Z) (s : bytes) : Z :=
 (** common.HexToAddress on a string accepted by IsHexAddress *)
 Definition hex_to_addr (s : bytes) : Z := hex_fold 0 (strip0x s).
 
+(** common.Address.Hex(): "0x" and 40 hex digits (the EIP-55 mixed case is irrelevant to every reader of the
+    string: HexToAddress / IsHexAddress accept both cases; lower case here).
+    [Proofs/ConvertHook.v hex_roundtrip]: hex_to_addr (hex_of_addr a) = a for 0 <= a < 2^160. *)
+Definition hex_digit (n : Z) : byte :=
+  match n with
+  | 0 => x30 | 1 => x31 | 2 => x32 | 3 => x33 | 4 => x34 | 5 => x35 | 6 => x36 | 7 => x37
+  | 8 => x38 | 9 => x39 | 10 => x61 | 11 => x62 | 12 => x63 | 13 => x64 | 14 => x65 | _ => x66
+  end.
+Fixpoint hex_digits (n : nat) (v : Z) : bytes :=
+  match n with O => [] | S n' => hex_digits n' (v / 16) ++ [hex_digit (v mod 16)] end.
+Definition hex_of_addr (a : Z) : bytes := x30 :: x78 :: hex_digits 40 a.
+
 (** sdk.ValidateDenom (v0.45.2): [a-zA-Z][a-zA-Z0-9/-]{2,127} *)
 Definition is_denom_tail (b : byte) : bool :=
   is_alpha b || is_digit b || Byte.eqb b x2f || Byte.eqb b x2d.
@@ -135,7 +147,12 @@ Inductive call :=
 | CTransfer (to amt : Z)
 | CMint (to amt : Z)
 | CBurnCoins (from amt : Z)
-| CBurn (amt : Z).
+| CBurn (amt : Z)
+| CApprove (spender amt : Z)
+| CIncAllow (spender amt : Z)          (* increaseAllowance *)
+| CDecAllow (spender amt : Z)          (* decreaseAllowance *)
+| CTransferFrom (from to amt : Z)
+| CBurnFrom (from amt : Z).
 
 Inductive logk := LNoTopic | LApproval | LOther.
 
@@ -149,28 +166,68 @@ Definition cok (r : option Z) (l : list logk) : cres := {| cr_ok := true; cr_ret
 
 Definition W256 : Z := 2 ^ 256.
 
-(** ** ERC20MinterBurnerDecimals (OpenZeppelin 4.3.2); [owner] holds MINTER_ROLE and BURNER_ROLE (the deployer;
-    the module never grants roles and never pauses). *)
-Record std_token := { st_bal : zmap; st_total : Z }.
+(** ** ERC20MinterBurnerDecimals (OpenZeppelin ERC20 + ERC20Burnable + AccessControl); [owner] holds
+    MINTER_ROLE and BURNER_ROLE (the deployer; the module never grants roles and never pauses).  The call alphabet
+    is EVERY state-changing function of the compiled contract's ABI except the role-gated administration
+    (pause / unpause / grantRole / revokeRole / renounceRole): Gen/Erc20AbiGen.v + Proofs/ConvertAbi.v check that on
+    every run against syscontracts/contracts_compiled/ERC20MinterBurnerDecimals.json. *)
+Definition akey_eqb (a b : Z * Z) : bool := (fst a =? fst b) && (snd a =? snd b).
+Definition amap := list ((Z * Z) * Z).                      (* (owner, spender) -> allowance *)
+Definition alget (m : amap) (o sp : Z) : Z := aget akey_eqb 0 m (o, sp).
+Definition alset (m : amap) (o sp v : Z) : amap := aset m (o, sp) v.
+
+Record std_token := { st_bal : zmap; st_total : Z; st_allow : amap }.
+
+(** ERC20._spendAllowance as COMPILED into syscontracts/contracts_compiled/ERC20MinterBurnerDecimals.json: an allowance
+    of 2^256-1 is "infinite" and is not decreased.  (The Solidity files under syscontracts/contracts_src carry
+    OpenZeppelin 4.3.2 headers, where burnFrom / transferFrom always decrease the allowance: the deployed byte code
+    was built from a newer OpenZeppelin.  The model follows the byte code — the correspondence run executes it.) *)
+Definition spend_allowance (al : amap) (o sp amt : Z) : amap :=
+  let cur := alget al o sp in if cur =? W256 - 1 then al else alset al o sp (cur - amt).
 
 Definition std_call (owner : Z) (t : std_token) (caller : Z) (cl : call) : std_token * cres :=
   let bal := st_bal t in
+  let al := st_allow t in
   match cl with
   | CBalanceOf a => (t, cok (Some (zget bal a)) [])
   | CTransfer to amt =>
       if (amt <? 0) || (caller =? 0) || (to =? 0) || (zget bal caller <? amt) then (t, cfail)
       else let b1 := zset bal caller (zget bal caller - amt) in
            let b2 := zset b1 to (zget b1 to + amt) in
-           ({| st_bal := b2; st_total := st_total t |}, cok (Some 1) [LOther])
+           ({| st_bal := b2; st_total := st_total t; st_allow := al |}, cok (Some 1) [LOther])
   | CMint to amt =>
       if (amt <? 0) || negb (caller =? owner) || (to =? 0) || (W256 <=? st_total t + amt) then (t, cfail)
-      else ({| st_bal := zset bal to (zget bal to + amt); st_total := st_total t + amt |}, cok None [LOther])
+      else ({| st_bal := zset bal to (zget bal to + amt); st_total := st_total t + amt; st_allow := al |}, cok None [LOther])
   | CBurnCoins from amt =>
       if (amt <? 0) || negb (caller =? owner) || (from =? 0) || (zget bal from <? amt) then (t, cfail)
-      else ({| st_bal := zset bal from (zget bal from - amt); st_total := st_total t - amt |}, cok None [LOther])
+      else ({| st_bal := zset bal from (zget bal from - amt); st_total := st_total t - amt; st_allow := al |}, cok None [LOther])
   | CBurn amt =>
       if (amt <? 0) || (caller =? 0) || (zget bal caller <? amt) then (t, cfail)
-      else ({| st_bal := zset bal caller (zget bal caller - amt); st_total := st_total t - amt |}, cok None [LOther])
+      else ({| st_bal := zset bal caller (zget bal caller - amt); st_total := st_total t - amt; st_allow := al |}, cok None [LOther])
+  | CApprove sp amt =>                     (* _approve(msg.sender, spender, amount) *)
+      if (amt <? 0) || (W256 <=? amt) || (caller =? 0) || (sp =? 0) then (t, cfail)
+      else ({| st_bal := bal; st_total := st_total t; st_allow := alset al caller sp amt |}, cok (Some 1) [LApproval])
+  | CIncAllow sp amt =>                    (* checked addition *)
+      let cur := alget al caller sp in
+      if (amt <? 0) || (caller =? 0) || (sp =? 0) || (W256 <=? cur + amt) then (t, cfail)
+      else ({| st_bal := bal; st_total := st_total t; st_allow := alset al caller sp (cur + amt) |}, cok (Some 1) [LApproval])
+  | CDecAllow sp amt =>                    (* require(currentAllowance >= subtractedValue) *)
+      let cur := alget al caller sp in
+      if (amt <? 0) || (caller =? 0) || (sp =? 0) || (cur <? amt) then (t, cfail)
+      else ({| st_bal := bal; st_total := st_total t; st_allow := alset al caller sp (cur - amt) |}, cok (Some 1) [LApproval])
+  | CTransferFrom from to amt =>           (* _spendAllowance(from, msg.sender, amount); _transfer(from, to, amount) *)
+      let cur := alget al from caller in
+      if (amt <? 0) || (caller =? 0) || (from =? 0) || (to =? 0) || (zget bal from <? amt) || (cur <? amt) then (t, cfail)
+      else let b1 := zset bal from (zget bal from - amt) in
+           let b2 := zset b1 to (zget b1 to + amt) in
+           ({| st_bal := b2; st_total := st_total t; st_allow := spend_allowance al from caller amt |},
+            cok (Some 1) (if cur =? W256 - 1 then [LOther] else [LApproval; LOther]))
+  | CBurnFrom from amt =>                  (* _spendAllowance(from, msg.sender, amount); _burn(from, amount) *)
+      let cur := alget al from caller in
+      if (amt <? 0) || (caller =? 0) || (from =? 0) || (cur <? amt) || (zget bal from <? amt) then (t, cfail)
+      else ({| st_bal := zset bal from (zget bal from - amt); st_total := st_total t - amt;
+               st_allow := spend_allowance al from caller amt |},
+            cok None (if cur =? W256 - 1 then [LOther] else [LApproval; LOther]))
   end.
 
 (** * Messages *)
@@ -519,13 +576,56 @@ Section Model.
     | Panic => (s, 2%nat)
     end.
 
+  (** keeper/ibc_hook.go OnRecvPacket (the ICS-20 middleware hook), from the point where the packet data has been
+      decoded to a denomination [d] = IBCDenom(destPort, destChannel, data.Denom), an amount [a] =
+      NewIntFromString(data.Amount) and a receiver [r] of exactly 20 bytes (decoding, the amount parser, bech32 and
+      the sha256 of the denomination trace are property C16's oracles; on each of those failures the hook returns
+      before touching the state).  The hook
+        - returns when the denomination is not in the denom index (IsDenomRegistered = store.Has),
+        - builds sdk.NewCoin(d, a): PANICS on an invalid denomination or a negative amount (the panic leaves the
+          hook and fails the enclosing transaction),
+        - calls ConvertCoin DIRECTLY (no ValidateBasic, no BaseApp around it: a zero amount reaches the bank) with
+          sender = the receiver and Receiver = common.BytesToAddress(receiver).Hex(), on a CACHE branch of the
+          context that is written back only when ConvertCoin returns nil; an error is swallowed (status FAILED),
+          a panic propagates.
+      Result: state and class (0 converted and written, 1 returned without converting, 2 panicked). *)
+  Definition denom_registered (s : state) (d : bytes) : bool :=
+    match afind bytes_eqb (s_denom s) d with Some _ => true | None => false end.
+
+  Definition hook_msg (r : Z) (d : bytes) (a : Z) : msg_cc :=
+    {| cc_denom := d; cc_amount := a; cc_receiver := hex_of_addr r; cc_sender := r; cc_sender_ok := true |}.
+
+  Definition hook_recv (s : state) (r : Z) (d : bytes) (a : Z) : state * nat :=
+    if negb (denom_registered s d) then (s, 1%nat) else
+    if negb (valid_denom d) || (a <? 0) then (s, 2%nat) else
+    match convert_coin s (hook_msg r d a) with
+    | Ok s' => (s', 0%nat)
+    | Err => (s, 1%nat)
+    | Panic => (s, 2%nat)
+    end.
+
+  (** Coins created by ANOTHER module and paid out to an account (ICS-20 transfer crediting a voucher right before
+      the hook runs, x/mint inflation, ...): bank MintCoins on that module + SendCoinsFromModuleToAccount. *)
+  Definition env_mint (s : state) (to : Z) (d : bytes) (a : Z) : state * nat :=
+    if zmem to (s_blocked s) then (s, 1%nat) else
+    match (s1 <- add_coins s to d a ;;
+           let sup := sget (s_supply s1) d in
+           if INTMAX <=? sup + a then Panic
+           else Ok (ensure_acct (set_supply s1 (sset (s_supply s1) d (sup + a))) to)) with
+    | Ok s' => (s', 0%nat)
+    | Err => (s, 1%nat)
+    | Panic => (s, 2%nat)
+    end.
+
   (** ** Histories: conversions interleaved with what everybody else can do *)
   Inductive op :=
   | OMsg (m : msg)
   | OTokenCall (c caller : Z) (cl : call)      (* somebody's Ethereum transaction calling a token contract *)
   | OBankSend (from to : Z) (d : bytes) (a : Z) (* bank MsgSend between accounts *)
   | OToggle (id : bytes)                        (* governance: ToggleRelay *)
-  | OFlags (params evmcall snd_default : bool) (snd : list (bytes * bool)). (* governance: parameters *)
+  | OFlags (params evmcall snd_default : bool) (snd : list (bytes * bool)) (* governance: parameters *)
+  | OHook (r : Z) (d : bytes) (a : Z)            (* an ICS-20 packet for receiver r reaches the aggregate hook *)
+  | OEnvMint (to : Z) (d : bytes) (a : Z).       (* another module mints coins to an account *)
 
   Definition toggle_pair (p : pair) : pair :=
     {| p_id := p_id p; p_erc20 := p_erc20 p; p_denoms := p_denoms p; p_enabled := negb (p_enabled p); p_owner := p_owner p |}.
@@ -554,18 +654,24 @@ Section Model.
         | None => s
         end
     | OFlags p e sd sl => set_flags s p e sd sl
+    | OHook r d a => fst (hook_recv s r d a)
+    | OEnvMint to d a => fst (env_mint s to d a)
     end.
 
   Definition run (s : state) (l : list op) : state := fold_left step l s.
 
   (** Nobody holds a private key of the module account: no operation of a history is signed by it (messages:
-      the signer is the sender; Ethereum transactions: the caller; bank sends: the source). *)
+      the signer is the sender; Ethereum transactions: the caller; bank sends: the source).  The hook converts on
+      behalf of the ICS-20 receiver; the transfer application refuses to credit a blocked address such as the
+      module account (SendCoinsFromModuleToAccount) and then returns an error acknowledgement, after which the
+      middleware does not call the hook: the module account is never the hook's receiver. *)
   Definition signer (o : op) : option Z :=
     match o with
     | OMsg (MCC m) => Some (cc_sender m)
     | OMsg (MCE m) => Some (hex_to_addr (ce_sender m))
     | OTokenCall _ caller _ => Some caller
     | OBankSend from _ _ _ => Some from
+    | OHook r _ _ => Some r
     | _ => None
     end.
   Definition not_module_signed (o : op) : Prop := signer o <> Some MODULE.
@@ -612,6 +718,9 @@ Arguments convert_coin {X}.
 Arguments convert_erc20 {X}.
 Arguments handle {X}.
 Arguments deliver {X}.
+Arguments denom_registered {X}.
+Arguments hook_recv {X}.
+Arguments env_mint {X}.
 Arguments token_call {X}.
 Arguments bank_send {X}.
 Arguments step {X}.
